@@ -19,7 +19,8 @@ def gen(rng, tier):
     for _ in range(300 if tier == "quick" else 2000):
         xs += [a, b, -a, -b]
         a = float(np.nextafter(a, 0)); b = float(np.nextafter(b, 1))
-    xs += [0.0, -0.0, 5e-324, 1e-308, 700.0, 30.0, -30.0, 1.0, -1.0]
+    xs += [0.0, -0.0, 5e-324, 1e-308, 700.0, 30.0, -30.0, 1.0, -1.0, 41.0, -41.0, 50.0, -50.0, 100.0, -100.0, 300.0, -300.0, 650.0, -650.0]
+    xs += [rng.choice([-1, 1]) * 10 ** rng.uniform(1.5, 2.8) for _ in range(40)]      # large |x| of both signs (exp(-x) negligible or huge)
     zs = []
     for _ in range(n):
         r = 10 ** rng.uniform(-12, 1.3); th = rng.uniform(0, 2 * math.pi)
@@ -33,6 +34,10 @@ def gen(rng, tier):
         zs.append(z)
     for d in range(-40, 41):
         zs += [complex(0.0, 1e-3 * (1 + d * 1e-15)), complex(0.0, -1e-3 * (1 + d * 1e-15))]
+    # large |z| with small or negative real part (a large time step times a large gap in the A-FSSH propagator)
+    for _ in range(60):
+        r = 10 ** rng.uniform(1.3, 2.6)
+        zs.append(rng.choice([complex(0.0, r * rng.choice([1, -1])), complex(rng.uniform(-3, 3), r * rng.choice([1, -1])), complex(-rng.uniform(0, 30), r)]))
     return xs, zs
 
 
